@@ -399,6 +399,23 @@ def fields(mon, spec):
         k = len(positions)
         values = range(1 << k) if k <= 8 else sorted({0, 1, (1 << k) - 1, 1 << (k - 1), (1 << k) - 2} | {rng.getrandbits(k) for _ in range(40)})
         backgrounds = [0, 0xFFFFFFFF, rng.getrandbits(32), rng.getrandbits(32), mask, ~mask & 0xFFFFFFFF]
+        # the field's own bits one at a time (set alone / clear alone) and, for a field made of several pieces (ITSTATE:
+        # CPSR<15:10> and <26:25>), each piece alone: a setter that looks at the current contents of one piece to decide
+        # what to do with another shows only there
+        if k <= 8:
+            backgrounds += [1 << p for p in positions] + [0xFFFFFFFF ^ (1 << p) for p in positions]
+        runs, cur = [], [positions[0]]
+        for p in positions[1:]:
+            if abs(p - cur[-1]) == 1:
+                cur.append(p)
+            else:
+                runs.append(cur)
+                cur = [p]
+        runs.append(cur)
+        if len(runs) > 1:
+            for run in runs:
+                rm = sum(1 << p for p in run)
+                backgrounds += [rm, (rng.getrandbits(32) & ~mask) | rm, (rng.getrandbits(32) | mask) & ~rm & 0xFFFFFFFF]
         mon.res['sets']['fields'].add(label)
         for bg in backgrounds:
             # read-back
@@ -418,7 +435,7 @@ def fields(mon, spec):
                     continue
                 exp = (bg & ~mask) | scatter(v, positions)
                 if exp != bg:
-                    mon.res['nontrivial'].add('%s|%s|%s' % (label, 'all' if k <= 8 else 'corner', 'bg%d' % backgrounds.index(bg)))
+                    mon.res['nontrivial'].add('%s|%s|%s' % (label, 'all' if k <= 8 else 'corner', 'bg%d' % min(backgrounds.index(bg), 6)))
                 if inst.value != exp:
                     report(label, 'write', 'writing %#x to %s over %#010x gives %#010x, expected %#010x (bits %s)' % (
                         v, label, bg, inst.value, exp, positions))
